@@ -3,9 +3,16 @@ package ociserver
 // C04 (server side of the chunk protocol): the Content-Range / Content-Length codec.
 
 import (
+	"bytes"
+	"context"
+	"errors"
+	"io"
 	"net/http"
 
+	"cuelabs.dev/go/oci/ociregistry"
 	"cuelabs.dev/go/oci/ociregistry/internal/ocirequest"
+	"cuelabs.dev/go/oci/ociregistry/ocimem"
+	"github.com/opencontainers/go-digest"
 )
 
 func pow10(k int) int64 {
@@ -68,4 +75,149 @@ func init() {
 	verifRegister("VerifC04_ContentRangeCodec", VerifC04_ContentRangeCodec)
 	verifRegister("VerifC04_ContentLengthOnly", VerifC04_ContentLengthOnly)
 	verifRegister("VerifC04_ContentRangeMismatch", VerifC04_ContentRangeMismatch)
+}
+
+// ---- client-side chunked writer through the stack
+
+type c04smallChunkWriter struct {
+	ociregistry.BlobWriter
+	min int
+}
+
+func (w c04smallChunkWriter) ChunkSize() int { return w.min }
+
+// c04backend is the in-memory registry with a configurable minimum chunk size (the real
+// one reports 8 KiB, which would force multi-kilobyte contents).
+type c04backend struct {
+	*ocimem.Registry
+	min int
+}
+
+func (b c04backend) PushBlobChunked(ctx context.Context, repo string, chunkSize int) (ociregistry.BlobWriter, error) {
+	w, err := b.Registry.PushBlobChunked(ctx, repo, chunkSize)
+	if err != nil {
+		return nil, err
+	}
+	return c04smallChunkWriter{w, b.min}, nil
+}
+
+func (b c04backend) PushBlobChunkedResume(ctx context.Context, repo, id string, offset int64, chunkSize int) (ociregistry.BlobWriter, error) {
+	w, err := b.Registry.PushBlobChunkedResume(ctx, repo, id, offset, chunkSize)
+	if err != nil {
+		return nil, err
+	}
+	return c04smallChunkWriter{w, b.min}, nil
+}
+
+// VerifC04_ClientChunked: any partition of a content into writes, any chunk-size hint,
+// close-and-resume at any write boundary (at the reported size, or asking the registry
+// with -1), over client -> server -> in-memory registry: the committed blob is exactly
+// the concatenation of the written bytes.
+func VerifC04_ClientChunked() {
+	mem := ocimem.New()
+	min := 1 + verifChoose("registryMinChunk", 2)
+	c, _ := vsStack(c04backend{mem, min}, nil)
+	ctx := context.Background()
+	hint := []int{-1, 0, 1, 2, 3}[verifChoose("chunkSizeHint", 5)]
+	w, err := c.PushBlobChunked(ctx, "a/b", hint)
+	verifAssert(err == nil, "upload-starts")
+	if err != nil {
+		return
+	}
+	nw := verifParam("writes", 3)
+	k := verifParam("maxlen", 2)
+	var all []byte
+	for i := 0; i < nw; i++ {
+		chunk := verifBytes("chunk", k)
+		n, err := w.Write(chunk)
+		verifAssert(err == nil && n == len(chunk), "write-ok")
+		all = append(all, chunk...)
+		verifAssert(w.Size() == int64(len(all)), "size-is-total-written")
+		switch verifChoose("resume", 3) {
+		case 1:
+			id, size := w.ID(), w.Size()
+			verifAssert(w.Close() == nil, "close-flushes")
+			w, err = c.PushBlobChunkedResume(ctx, "a/b", id, size, hint)
+			verifAssert(err == nil, "resume-at-reported-size")
+		case 2:
+			// resuming with -1 after exactly one byte is excluded by the property (the
+			// upload-status Range header cannot tell zero bytes from one)
+			if len(all) != 1 {
+				id := w.ID()
+				verifAssert(w.Close() == nil, "close-flushes")
+				w, err = c.PushBlobChunkedResume(ctx, "a/b", id, -1, hint)
+				verifAssert(err == nil, "resume-asking-for-offset")
+				if err == nil {
+					verifAssert(w.Size() == int64(len(all)), "resumed-size-is-bytes-received")
+				}
+			}
+		}
+		if err != nil {
+			return
+		}
+	}
+	dig := digest.FromBytes(all)
+	desc, err := w.Commit(dig)
+	verifAssert(err == nil, "commit-ok")
+	if err != nil {
+		return
+	}
+	verifAssert(desc.Size == int64(len(all)) && desc.Digest == dig, "commit-descriptor")
+	rd, err := mem.GetBlob(ctx, "a/b", dig)
+	verifAssert(err == nil, "committed-blob-found")
+	if err == nil {
+		got, _ := io.ReadAll(rd)
+		verifAssert(bytes.Equal(got, all), "committed-bytes-are-the-concatenation-in-order")
+	}
+	verifCover("end")
+}
+
+// VerifC04_ClientWrongOffset: data sent at an offset other than what the registry has is
+// refused with RANGE_INVALID (416) and does not alter the upload; a wrong commit digest
+// stores nothing.
+func VerifC04_ClientWrongOffset() {
+	mem := ocimem.New()
+	c, _ := vsStack(c04backend{mem, 1}, nil)
+	ctx := context.Background()
+	w, err := c.PushBlobChunked(ctx, "a/b", 1)
+	verifAssert(err == nil, "upload-starts")
+	first := []byte("ab")
+	w.Write(first)
+	id := w.ID()
+	verifAssert(w.Close() == nil, "first-chunk-flushed")
+	offset := verifInt64("offset")
+	verifAssume(offset >= 0 && offset < 1000)
+	w2, err := c.PushBlobChunkedResume(ctx, "a/b", id, offset, 1)
+	verifAssert(err == nil, "resume-is-local")
+	more := verifBytes("more", 2)
+	verifAssume(len(more) > 0)
+	_, werr := w2.Write(more)
+	cerr := w2.Close()
+	ferr := werr
+	if ferr == nil {
+		ferr = cerr
+	}
+	if offset == 2 {
+		verifAssert(ferr == nil, "right-offset-accepted")
+	} else {
+		verifAssert(ferr != nil && errors.Is(ferr, ociregistry.ErrRangeInvalid), "wrong-offset-is-RANGE_INVALID")
+		// the upload is unchanged: resuming properly still sees two bytes
+		w3, err := c.PushBlobChunkedResume(ctx, "a/b", id, -1, 1)
+		verifAssert(err == nil && w3.Size() == 2, "refused-chunk-left-upload-unchanged")
+	}
+	// committing with a wrong digest fails and stores nothing
+	w4, err := c.PushBlobChunkedResume(ctx, "a/b", id, -1, 1)
+	if err == nil {
+		bad := digest.FromBytes([]byte("something else"))
+		_, err := w4.Commit(bad)
+		verifAssert(err != nil, "wrong-digest-commit-fails")
+		_, gerr := mem.GetBlob(ctx, "a/b", bad)
+		verifAssert(gerr != nil, "failed-commit-stores-nothing")
+	}
+	verifCover("end")
+}
+
+func init() {
+	verifRegister("VerifC04_ClientChunked", VerifC04_ClientChunked)
+	verifRegister("VerifC04_ClientWrongOffset", VerifC04_ClientWrongOffset)
 }
